@@ -25,7 +25,7 @@ RULE = ("histories of 1-4 fit_predict runs over small grids (<= 2 strategies x 2
         "after complete and after crashed runs, possibly crashing themselves; 'history' = random "
         "flag / crash / fresh-object histories incl. the rejected flag combination; 'regrid' = later "
         "runs over a sub-grid with a new results object (master file merge); 'ram' = RAMResults "
-        "histories; 'floatcsv' = fractional float predictions (oracle only); cv = KFold(2/3), "
+        "histories; 'permidx' = datasets whose integer index is permuted or has other labels; 'floatcsv' = fractional float predictions (oracle only); cv = KFold(2/3), "
         "SingleSplit (unshuffled and shuffled), PresplitFilesCV with and without inner KFold; TSC "
         "and TSR strategies.  non-trivial = at least two runs of which one crashed or skipped "
         "something (RAM: a completed run); distinct = distinct canonical JSON case")
@@ -376,6 +376,24 @@ def gen_cases(rng, tier):
         g["labeltype"] = lt
         g["datasets"][0]["labeltype"] = lt
         add("typedcsv", "hdd" if i < 4 or i % 2 else "ram", g, [_run(True, None, on_train=True)])
+    # 8. datasets whose integer index is a permutation of 0..n-1 (or has other labels): everything
+    #    the orchestrator does with a fold goes by position; a true value looked up by LABEL would be
+    #    another instance's (seed C19-e)
+    for i in range(30 if not thorough else 150):
+        cv = rng.choice([("kfold", 2), ("kfold", 3), ("single", 2), ("single_shuffle", 2, 9)])
+        n_s, n_d = rng.choice([(1, 1), (2, 1), (1, 2)])
+        g = _grid(rng, n_s, n_d, cv)
+        for d in g["datasets"]:
+            n = len(d["xs"])
+            perm = list(range(n))
+            while perm == list(range(n)):
+                rng.shuffle(perm)
+            d["index"] = perm if i % 3 else [7 + 3 * v for v in perm]      # permuted / other labels
+        n_tasks = n_s * n_d * _n_folds(cv)
+        fl = {"on_train": rng.random() < 0.7, "save_fit": rng.random() < 0.4}
+        fail = rng.choice([None] + _crash_points(n_tasks, fl["on_train"]))
+        add("permidx", rng.choice(["hdd", "hdd", "ram"]) if not fl["save_fit"] else "hdd", g,
+            [_run(True, fail, **fl), _run(rng.random() < 0.5, None, **fl)])
     return cases
 
 
@@ -401,6 +419,10 @@ def _build_data(ds, task):
         data["target"] = [float(v) for v in ds["ys"]] if task == "tsr" else [int(v) for v in ds["ys"]]
     if ds.get("labels") is not None:
         data.index = ["train" if b else "test" for b in ds["labels"]]
+    elif ds.get("index") is not None:
+        # an integer index that is not 0..n-1 in order (a frame that was shuffled or filtered
+        # without reset_index): folds, records and true values go by POSITION, never by label
+        data.index = [int(v) for v in ds["index"]]
     return data
 
 
